@@ -59,8 +59,8 @@ func runIdxCoupd(c *core.Ctx) {
 	c.CountFuncs(2)
 	// ---- insert
 	{
-		fn := a.ins
-		mu := mapUpdatesOn(fn, "recv.evs")[0]
+		st := cacheStmts(a.ins, false)[0]
+		fn, mu := st.at, st.mu
 		ev := an.PathOf(mu.Value)
 		var set, idx ssa.CallInstruction
 		for _, ci := range calls(fn) {
@@ -104,8 +104,8 @@ func runIdxCoupd(c *core.Ctx) {
 	}
 	// ---- delete
 	{
-		fn := a.del
-		dl := mapDeletesOn(fn, "recv.evs")[0]
+		st := cacheStmts(a.del, true)[0]
+		fn, dl := st.at, st.del
 		key := an.PathOf(dl.Call.Args[1])
 		cand := "recv.evs[" + key + "]"
 		var del, idx ssa.CallInstruction
